@@ -781,9 +781,10 @@ def preaggregate_spec(spec, h, axis, agg):
         nT, nL, nS = len(times), len(leads), len(d["si"])
 
         def win(a, b):
+            # in coordinate order (the order matters to 'change' = last - first), whatever order the file stores them in
             if axis == "leadtime":
-                return [(a, j) for j in range(nL) if leads[b] - h < leads[j] <= leads[b]]
-            return [(j, b) for j in range(nT) if times[a] - h * 3600 < times[j] <= times[a]]
+                return [(a, j) for j in sorted(range(nL), key=lambda j: leads[j]) if leads[b] - h < leads[j] <= leads[b]]
+            return [(j, b) for j in sorted(range(nT), key=lambda j: times[j]) if times[a] - h * 3600 < times[j] <= times[a]]
 
         def conv(nested, member=None):
             res = []
